@@ -76,7 +76,9 @@ impl ResolvedCalendarFields {
 
 fn resolve_day(day: Option<u8>, is_year_month: bool) -> TemporalResult<u8> {
     if is_year_month {
-        Ok(day.unwrap_or(1))
+        // NOTE: CalendarYearMonthFromFields sets the day to 1: a year-month is determined by its
+        // year and month, and a supplied day must not leak into the reference day.
+        Ok(1)
     } else {
         day.ok_or(TemporalError::r#type().with_message("Required day field is empty."))
     }
